@@ -401,6 +401,18 @@ def r12_6(ctx: Ctx) -> None:
                            f"{c.func.attr}() arms {cd} and the same apply_timestep call then decrements it: the transitional state "
                            f"lasts one tick less after a reset than after a request", path_text(p))
     ctx.floor("R12.6", "arming calls inside apply_timestep", n_arm, 1)
+    # each power countdown is armed from its own duration: start_up_countdown <- start_up_duration, shut_down_countdown <- shut_down_duration
+    n_h = 0
+    for mname in ("power_on", "power_off", "apply_timestep", "reset"):
+        fm = ix.method(f"Node.{mname}")
+        for st in ast.walk(fm.node):
+            if isinstance(st, ast.Assign) and len(st.targets) == 1 and isinstance(st.targets[0], ast.Attribute) and st.targets[0].attr.endswith("_countdown") \
+                    and isinstance(st.value, ast.Attribute) and st.value.attr.endswith("_duration"):
+                n_h += 1
+                a, b = st.targets[0].attr[:-len("_countdown")], st.value.attr[:-len("_duration")]
+                ctx.record("R12.6", ctx.key(fm, f"{st.targets[0].attr} is armed from its own duration"), fm.loc(st), a == b,
+                           f"{unparse(st)[:80]}" + ("" if a == b else f" - the {a} phase lasts as long as the {b} phase is configured to"))
+    ctx.floor("R12.6", "countdowns armed from a duration", n_h, 2)
 
 
 
